@@ -94,7 +94,7 @@ def load(repo):
         for fn in os.listdir(CACHE):
             if fn.startswith('cfacts-') and fn.endswith('.pkl') and os.path.join(CACHE, fn) != path:
                 try:
-                    if len([x for x in os.listdir(CACHE) if x.startswith('cfacts-')]) > 40:
+                    if len([x for x in os.listdir(CACHE) if x.startswith('cfacts-')]) > 12:
                         os.remove(os.path.join(CACHE, fn))
                 except OSError:
                     pass
